@@ -1,6 +1,9 @@
 pub mod push_loop;
 
 use crate::subscriptions::{PushConfig, SubscriptionName};
+#[cfg(deltio_verif)]
+use crate::verif::RwLock;
+#[cfg(not(deltio_verif))]
 use parking_lot::RwLock;
 use std::collections::HashMap;
 use std::sync::Arc;
